@@ -333,6 +333,14 @@ def b_map(ex, f, *its):
 
 
 def b_next(ex, it, *default):
+    if hasattr(it, '__next__'):
+        # an iterator made by iter(): consumed item by item
+        try:
+            return next(it)
+        except StopIteration:
+            if default:
+                return default[0]
+            raise PyRaise(make_exc('StopIteration'))
     xs = ex.iterate(it)
     if xs:
         return xs[0]
@@ -396,17 +404,6 @@ def b_format(ex, v, spec=''):
 
 def b_iter(ex, x):
     return iter(list(ex.iterate(x)))
-
-
-def b_next(ex, it, *default):
-    if not hasattr(it, '__next__'):
-        raise Unsupported(f'next() of {type(it).__name__}')
-    try:
-        return next(it)
-    except StopIteration:
-        if default:
-            return default[0]
-        raise PyRaise(make_exc('StopIteration'))
 
 
 def b_vars(ex, obj):
@@ -490,7 +487,7 @@ def b_getattr(ex, obj, name, *default):
 
 
 BUILTINS = {}
-for _n, _f in [('iter', b_iter), ('next', b_next), ('format', b_format), ('vars', b_vars), ('all', b_all), ('any', b_any), ('reversed', b_reversed), ('getattr', b_getattr), ('divmod', b_divmod),
+for _n, _f in [('iter', b_iter), ('format', b_format), ('vars', b_vars), ('all', b_all), ('any', b_any), ('reversed', b_reversed), ('getattr', b_getattr), ('divmod', b_divmod),
                ('len', b_len), ('isinstance', b_isinstance), ('int', b_int), ('float', b_float), ('round', b_round),
                ('bool', b_bool), ('str', b_str), ('bytes', b_bytes), ('bytearray', b_bytearray), ('range', b_range),
                ('min', b_min), ('max', b_max), ('sum', b_sum), ('sorted', b_sorted), ('list', b_list),
